@@ -119,6 +119,10 @@ func runC09Case(seed int64, idx int) *c09Result {
 	needMSN := map[string]int{} // per stream: highest segment number requested
 	var nmu sync.Mutex
 
+	lastDated := map[string]map[int]bool{} // per stream: segment number -> dated in the last playlist served
+	segDated := map[string]map[int]bool{}  // per stream: segment number -> dated in the playlist the client had when it asked for it
+	absDebug := os.Getenv("C09_ABSDEBUG") != ""
+	var dbgPlaylists []string
 	// the transport: every request goes to Muxer.Handle in-process
 	srv := &origin.Server{}
 	srv.H = func(req *http.Request, _ int) origin.Response {
@@ -134,6 +138,32 @@ func runC09Case(seed int64, idx int) *c09Result {
 		case <-req.Context().Done():
 			return origin.Response{Status: 499}
 		}
+		if m := reStreamPL.FindStringSubmatch(req.URL.Path); m != nil && rec.Code == 200 {
+			// which of the listed segments carry a date-time in this response (the fMP4 variants
+			// only date the last two)
+			dated := map[int]bool{}
+			pdt := false
+			for _, l := range strings.Split(rec.Body.String(), "\n") {
+				switch {
+				case strings.HasPrefix(l, "#EXT-X-PROGRAM-DATE-TIME"):
+					pdt = true
+				case l != "" && !strings.HasPrefix(l, "#"):
+					if sm := reSegURL.FindStringSubmatch(l); sm != nil {
+						n, _ := strconv.Atoi(sm[2])
+						dated[n] = pdt
+					}
+					pdt = false
+				}
+			}
+			nmu.Lock()
+			lastDated[m[1]] = dated
+			nmu.Unlock()
+		}
+		if absDebug && strings.HasSuffix(req.URL.Path, "_stream.m3u8") {
+			wmu.Lock()
+			dbgPlaylists = append(dbgPlaylists, fmt.Sprintf("next=%d %s\n%s", next, req.URL.Path, rec.Body.String()))
+			wmu.Unlock()
+		}
 		return origin.Response{Status: rec.Code, Body: rec.Body.Bytes(), CType: rec.Header().Get("Content-Type")}
 	}
 	srv.OnRequest = func(_ int, req *http.Request) {
@@ -141,6 +171,10 @@ func runC09Case(seed int64, idx int) *c09Result {
 		if m := reSegURL.FindStringSubmatch(p); m != nil {
 			n, _ := strconv.Atoi(m[2])
 			nmu.Lock()
+			if segDated[m[1]] == nil {
+				segDated[m[1]] = map[int]bool{}
+			}
+			segDated[m[1]][n] = lastDated[m[1]][n]
 			if n > needMSN[m[1]] {
 				needMSN[m[1]] = n
 			}
@@ -359,7 +393,24 @@ func runC09Case(seed int64, idx int) *c09Result {
 	// time origin: DTS of the first delivered leading unit, as written
 	leadUnits := per[leadClientTrack]
 	if len(leadUnits) == 0 {
-		res.obs["inconclusive_nothing_delivered"]++
+		// segments of the leading stream were downloaded and the run went on for seconds: units must
+		// have come out
+		segReqs := 0
+		for _, e := range srv.Log() {
+			if (e.Status == 200 || e.Status == 206) && (reSegURL.MatchString(e.URL) || rePartURL.MatchString(e.URL)) {
+				segReqs++
+			}
+		}
+		if segReqs >= 3 && (run.WaitErr == nil || errors.Is(run.WaitErr, gohlslib.ErrClientEOS) || !ended) {
+			fail("lost-track/"+c.Tracks[lead].Kind.String(), "the client downloaded %d segments / parts but never delivered a unit of the leading track (%s); %d units of other tracks", segReqs, c.Tracks[lead].Kind, len(units))
+			var reqs []string
+			for _, e := range srv.Log() {
+				reqs = append(reqs, fmt.Sprintf("%s->%d", e.URL[strings.LastIndexByte(e.URL, '/')+1:], e.Status))
+			}
+			res.desc = map[string]any{"seed": seed, "index": idx, "case": c.Describe(), "wait": fmt.Sprint(run.WaitErr), "ended": ended, "requests": reqs, "decode_errors": fmt.Sprint(run.DecodeErrs), "written": written}
+		} else {
+			res.obs["inconclusive_nothing_delivered"]++
+		}
 		return res
 	}
 	firstLead := units[leadUnits[0]]
@@ -527,6 +578,23 @@ func runC09Case(seed int64, idx int) *c09Result {
 			// absolute time (leading track units against their own segment's date-time)
 			if u.HasAbs && ti == lead && !multiAULead {
 				si := sort.SearchInts(segStartIdx, tagIdx+1) - 1
+				if si >= 0 && variant == media.VarFMP4 {
+					// the fMP4 muxer dates the last two segments of a playlist only: a client that is
+					// further behind the live edge gets a segment without date-time and goes on with the
+					// anchor of the last dated segment it downloaded
+					own := si
+					nmu.Lock()
+					sd := segDated[h.LeadingStream()]
+					for si >= 0 && !sd[si] {
+						si--
+					}
+					nmu.Unlock()
+					if si < 0 {
+						fail("abs-spurious", "client track %d: unit %d has an AbsoluteTime although no segment downloaded so far carried a date-time", ci, tagIdx)
+					} else if si != own {
+						res.obs["abs_checked_against_an_earlier_dated_segment"]++
+					}
+				}
 				if si >= 0 {
 					st := samples[segStartIdx[si]]
 					want := st.NTP.Truncate(time.Millisecond).Add(time.Duration(float64(w.DTS-st.DTS) / float64(ts.ClockRate) * 1e9))
@@ -537,6 +605,17 @@ func runC09Case(seed int64, idx int) *c09Result {
 					if d := u.Abs.Sub(want); d > tol || d < -tol {
 						fail("abs/v"+fmt.Sprint(variant), "client track %d: unit %d has AbsoluteTime %s, expected %s (NTP written with the first unit %d of its segment, plus DTS distance)", ci, tagIdx,
 							u.Abs.UTC().Format("15:04:05.000000"), want.UTC().Format("15:04:05.000000"), segStartIdx[si])
+						if absDebug {
+							fmt.Println("ABSDEBUG case", idx, "rots", rots, "segStartIdx", segStartIdx, "unit write", w.WriteIdx)
+							for _, pl := range dbgPlaylists {
+								fmt.Println("ABSDEBUG PL", pl)
+							}
+							var reqs []string
+							for _, e := range srv.Log() {
+								reqs = append(reqs, fmt.Sprintf("%s->%d", e.URL[strings.LastIndexByte(e.URL, '/')+1:], e.Status))
+							}
+							fmt.Println("ABSDEBUG REQS", reqs)
+						}
 						break
 					}
 					res.obs["abs_checked"]++
@@ -544,6 +623,43 @@ func runC09Case(seed int64, idx int) *c09Result {
 			}
 		}
 		res.obs["delivered."+ts.Kind.String()] += len(per[ci])
+	}
+	// completeness across tracks: pacing keeps the tracks together on the wall clock, so when the run
+	// is stopped no track may be seconds of media behind the leading one (a track that is never
+	// delivered at all is the extreme case)
+	{
+		lastSec := func(ci, ti int) (float64, bool) {
+			if len(per[ci]) == 0 {
+				return 0, false
+			}
+			u := units[per[ci][len(per[ci])-1]]
+			var norm []byte
+			if variant == media.VarTS && !c.Tracks[ti].Kind.IsVideo() {
+				norm = u.Data[0]
+			} else {
+				norm = media.Norm(c.Tracks[ti].Kind, u.Data)
+			}
+			_, tagIdx, ok := media.ParseTag(norm)
+			if !ok || tagIdx < 0 || tagIdx >= len(c.Samples(ti)) {
+				return 0, false
+			}
+			return float64(c.Samples(ti)[tagIdx].DTS) / float64(c.Tracks[ti].ClockRate), true
+		}
+		leadLast, okL := lastSec(leadClientTrack, lead)
+		leadFirst := float64(originS.DTS) / float64(leadRate)
+		for ci, ti := range order {
+			if ti == lead || !okL {
+				continue
+			}
+			res.obs["tracks_checked_for_completeness"]++
+			tl, ok := lastSec(ci, ti)
+			switch {
+			case len(per[ci]) == 0 && leadLast-leadFirst >= 2:
+				fail("lost-track/"+c.Tracks[ti].Kind.String(), "client track %d (%s) never delivered a unit while the leading track delivered %.2f s of media", ci, c.Tracks[ti].Kind, leadLast-leadFirst)
+			case ok && leadLast-tl > 4:
+				fail("lagging-track/"+c.Tracks[ti].Kind.String(), "client track %d (%s) stopped at %.2f s while the leading track reached %.2f s", ci, c.Tracks[ti].Kind, tl, leadLast)
+			}
+		}
 	}
 	res.obs["cases_with_delivery"]++
 	res.obs[fmt.Sprintf("cases.variant%d", variant)]++
